@@ -177,6 +177,48 @@ class Gen:
         return [p + f"return {self.int_expr(vars_, 2)}"], vars_, True
 
 
+class ArrGen(Gen):
+    """programs over an int array `xs` of length 3 next to the int variables: element reads, stores and augmented stores with
+    computed (possibly effectful) indices `(e) % 3`, which Python and Guppy both keep inside [0, 3)"""
+
+    def _idx(self, vars_, d):
+        r = self.r.random()
+        if r < 0.3:
+            return str(self.r.choice([0, 1, 2]))
+        return f"({self.int_expr(vars_, d)}) % 3"
+
+    def int_expr(self, vars_, d):
+        if d > 0 and self.r.random() < 0.22:
+            return f"xs[{self._idx(vars_, d - 1)}]"
+        return super().int_expr(vars_, d)
+
+    def stmt(self, vars_, d, in_loop, ind):
+        r = self.r.random()
+        p = " " * ind
+        if r < 0.14:
+            return [p + f"xs[{self._idx(vars_, 1)}] = {self.int_expr(vars_, 2)}"], vars_, False
+        if r < 0.26:
+            return [p + f"xs[{self._idx(vars_, 1)}] {self.r.choice(['+=', '-=', '*='])} {self.int_expr(vars_, 1)}"], vars_, False
+        if r < 0.30:
+            return [p + f"emit(bump(xs, {self._idx(vars_, 1)}))"], vars_, False
+        return super().stmt(vars_, d, in_loop, ind)
+
+
+def gen_array_program(kind: str, idx: int, seed: int) -> str:
+    rng = random.Random(f"arr-{kind}-{seed}-{idx}")
+    g = ArrGen(rng, effects=0.12 if kind == "c03" else 0.45, depth=2)
+    init = ", ".join(g.int_atom(["x", "y"]) for _ in range(3))
+    body, vars_ = g.block(["x", "y"], g.depth, False, 4)
+    lines = [f"def pa{idx}(x: int, y: int) -> int:", f"    xs = array({init})"] + body
+    lines.append(f"    return {g.int_expr(vars_, 2)} + xs[0] + xs[1] * 10 + xs[2] * 100")
+    return "\n".join(lines) + "\n"
+
+
+def n_array(n: int) -> int:
+    """how many array-flavoured programs accompany n generated ones"""
+    return max(3, n // 12)
+
+
 def gen_program(kind: str, idx: int, seed: int) -> str:
     rng = random.Random(f"{kind}-{seed}-{idx}")
     g = Gen(rng, effects=0.12 if kind == "c03" else 0.45, depth=3 if kind == "c03" else 2)
@@ -542,6 +584,15 @@ def corpus(kind: str, n: int, seed: int, region: str | None = None) -> list[str]
         return (not t) if region is None else (region in t)
 
     progs = [s for s in fixed if wanted(s)]
+    if region is None:
+        # array-flavoured programs (their own generator and random streams, so the programs that follow are unchanged)
+        j, want_arr = 0, n_array(n)
+        while want_arr and j < 40 * n_array(n):
+            src = gen_array_program(kind, j, seed)
+            j += 1
+            if wanted(src):
+                progs.append(src)
+                want_arr -= 1
     target = n + len(progs) if region is None else n
     seen = set()
     i = 0
